@@ -70,6 +70,7 @@ func TestC19OOB(t *testing.T) {
 				e := e
 				obs[e] = newWireObserver(p.Crypto, cfg.FEC[e], cfg.Conv, cfg.StreamID[e], cfg.Opts[e].Stream)
 				obs[e].mtuModel = func() int { return mtu(e) }
+				obs[e].clock = s.Now
 			}
 			lastType := [2]uint16{}
 			s.OnSent = func(dg *sim.Sent, from, to string, f *sim.Fate) error {
